@@ -1176,8 +1176,22 @@ fn cli_case(case: &mut Case, base: &std::path::Path) -> CaseResult {
     dopts.all_fragments_used = true;
     dopts.max_frags = 4;
     let (gd, _) = gen_doc(&mut case.ch, &gs.schema, &dopts);
+    // faults inside fragments are what a multi-file project adds over the in-process campaign: up to four
+    // attempts, keeping the first fault placed in a fragment (else the last applicable one)
     let mut doc = gd.doc.clone();
-    let Some(fault) = inject(&mut case.ch, &mut doc, &gs.schema) else {
+    let mut chosen: Option<Fault> = None;
+    for _ in 0..4 {
+        let mut d2 = gd.doc.clone();
+        if let Some(f) = inject(&mut case.ch, &mut d2, &gs.schema) {
+            let in_fragment = f.class.contains("fragment");
+            doc = d2;
+            chosen = Some(f);
+            if in_fragment {
+                break;
+            }
+        }
+    }
+    let Some(fault) = chosen else {
         case.discard("fault-not-applicable");
         return Ok(());
     };
@@ -1190,8 +1204,8 @@ fn cli_case(case: &mut Case, base: &std::path::Path) -> CaseResult {
         panic!("harness: injected fault {} ({}) not confirmed by the reference validator (got {labels:?})\n{}", fault.label, fault.detail, canon_op(&doc));
     }
     let split = crate::split::split_into_files(&mut case.ch, &doc);
-    let dir = base.join(format!("p{:016x}", hash_of(&(case.ch.data(), std::thread::current().id()))));
-    let proj = Project::new(&dir);
+    let proj = Project::new(base);
+    let dir = proj.dir.clone();
     proj.write("graphql.config.yaml", "schema: \"schema.graphql\"\ndocuments: \"ops/**/*.graphql\"\n");
     let schema_text = canon_ts(&gs.doc);
     proj.write("schema.graphql", &schema_text);
@@ -1206,10 +1220,20 @@ fn cli_case(case: &mut Case, base: &std::path::Path) -> CaseResult {
         "status": run.status, "stdout": run.stdout.chars().take(1500).collect::<String>(), "stderr": run.stderr.chars().take(600).collect::<String>()});
     proj.remove();
     case.evals(1);
+    if std::env::var("VH_DEBUG_C03").is_ok() && fault.label.contains("variable") && fault.class.contains("fragment") && split.files.len() > 1 {
+        eprintln!("DEBUG {}@{} status={:?} stdout={}\nFILES {}", fault.label, fault.class, run.status, run.stdout.chars().take(400).collect::<String>(), serde_json::to_string(&files).unwrap());
+    }
     if run.crashed() {
         return Err(Failure::new("cli-crashed", format!("check crashed: {}", run.stderr.lines().find(|l| l.contains("panicked")).unwrap_or("signal")), detail));
     }
-    let n_diags = run.json().ok().map(|v| v["check"]["errors"].as_array().map(|a| a.len()).unwrap_or(0) + if v["error"].is_object() { 1 } else { 0 }).unwrap_or(0);
+    let out = run.json().ok();
+    let has_errors = out.as_ref().map(|v| v["check"]["errors"].as_array().map(|a| !a.is_empty()).unwrap_or(false)).unwrap_or(false);
+    if let Some(m) = out.as_ref().and_then(|v| v["error"]["message"].as_str()).filter(|m| !has_errors && !m.starts_with("Command not successful")) {
+        // every injected fault is a check-stage fault: a command-level error means the harness wrote an
+        // unloadable project (vacuous case) - never a verdict
+        panic!("harness: the generated project could not be loaded by the CLI: {m}\n{detail}");
+    }
+    let n_diags = out.map(|v| v["check"]["errors"].as_array().map(|a| a.len()).unwrap_or(0)).unwrap_or(0);
     if run.status == Some(0) || n_diags == 0 {
         return Err(Failure::new(
             format!("cli-miss:{}:{}@{}", cause_of(&fault), fault.label, fault.class),
